@@ -23,7 +23,20 @@ type Res struct {
 
 func val(v any) Res           { return Res{Val: v} }
 func fail(cats ...string) Res { return Res{Err: cats} }
-func unsure(why string) Res   { return Res{U: why} }
+
+func addCats(cats []string, more []string) []string {
+	for _, c := range more {
+		seen := false
+		for _, d := range cats {
+			seen = seen || c == d
+		}
+		if !seen {
+			cats = append(cats, c)
+		}
+	}
+	return cats
+}
+func unsure(why string) Res { return Res{U: why} }
 func (r Res) bad() bool {
 	return len(r.Err) > 0 || r.U != "" || len(r.Alts) > 0 || r.Approx || r.JSONText
 }
@@ -318,13 +331,22 @@ func (in *interp) eval(n *Node, cur any, e *env) Res {
 				return *r
 			}
 		}
+		// the members may be evaluated in any order: when several fail, any of their categories may be reported
 		out := make(map[string]any, len(n.Items))
+		var cats []string
 		for i, it := range n.Items {
 			r := in.eval(it, cur, e).inner()
-			if r.bad() {
+			if r.U != "" {
 				return r
 			}
+			if r.IsError() {
+				cats = addCats(cats, r.Err)
+				continue
+			}
 			out[n.Keys[i]] = r.Val
+		}
+		if len(cats) > 0 {
+			return fail(cats...)
 		}
 		return val(out)
 	case KAnd:
@@ -388,13 +410,22 @@ func (in *interp) eval(n *Node, cur any, e *env) Res {
 		}
 		return val(&core.Num{R: new(big.Rat).Neg(x.R)})
 	case KLet:
+		// the bindings of one let may be evaluated in any order: when several fail, any of their categories may be reported
 		vars := make(map[string]any, len(n.Items))
+		var cats []string
 		for i, it := range n.Items {
 			r := in.eval(it, cur, e).inner()
-			if r.bad() {
+			if r.U != "" {
 				return r
 			}
+			if r.IsError() {
+				cats = addCats(cats, r.Err)
+				continue
+			}
 			vars[n.Keys[i]] = r.Val
+		}
+		if len(cats) > 0 {
+			return fail(cats...)
 		}
 		return in.eval(n.Left, cur, &env{parent: e, vars: vars})
 	case KCall:
